@@ -4,7 +4,7 @@ open Proto Framing DriverFraming
 
 /-- longest prefix of the input's frames that are valid (flag, limit, decompressible, decodable) -/
 def validPrefix (c : DecCase) : List Bytes :=
-  let frs := (Spec.Framing.split (dataOf c.evs)).1
+  let frs := (Spec.Framing.split (grpcData c)).1
   let limit := c.cfg.maxSize.getD (4 * 1024 * 1024)
   let rec go : List (UInt8 × Bytes) → List Bytes
     | [] => []
